@@ -340,6 +340,91 @@ def subview_real(L, el, shape, offs, dyn, base):
     return v
 
 
+def subview_module_real(items):
+    """Several pointer computations in ONE module, lowered by ONE run of convert-memref-to-arith:
+    src = "tsl": extract_aligned_pointer_as_index(subview of a TSL memref) (rewritten by the pass);
+    src = "direct": the pointer of the TSL memref itself; "plain": subview of a memref without TSL layout;
+    "arg": the pointer of a function argument — the pass must leave these three alone.
+    Returns per item {"ptr": value} or {"unchanged": True}."""
+    import snaxrun
+    from snaxc.transforms.convert_memref_to_arith import ConvertMemrefToArithPass
+    from xdsl.dialects import memref
+    lines, funcs = [], []
+    for i, it in enumerate(items):
+        el, shape, src = it["el"], it["shape"], it["src"]
+        rank = len(shape)
+        dims = "x".join(map(str, shape))
+        if src == "plain":
+            mt = f"memref<{dims}x{ELTS[el]}>"
+            st = [1] * rank
+            for d in range(rank - 2, -1, -1):
+                st[d] = st[d + 1] * shape[d + 1]
+            offs = [min(o or 0, n - 1) for o, n in zip(it["offs"], shape)]
+            off = sum(o * s_ for o, s_ in zip(offs, st))
+            rt = f"memref<{'x'.join(['1'] * rank)}x{ELTS[el]}, strided<[{', '.join(map(str, st))}], offset: {off}>>"
+            ones = ", ".join(["1"] * rank)
+            lines += [f'%m{i} = "test.op"() : () -> ({mt})',
+                      f"%s{i} = memref.subview %m{i}[{', '.join(map(str, offs))}] [{ones}] [{ones}] : {mt} to {rt}",
+                      f'%p{i} = "memref.extract_aligned_pointer_as_index"(%s{i}) : ({rt}) -> index',
+                      f'"test.op"(%p{i}) : (index) -> ()']
+            continue
+        mt = f"memref<{dims}x{ELTS[el]}, #tsl.tsl<{to_tsl(it['layout'])}>>"
+        if src == "direct":
+            lines += [f'%m{i} = "test.op"() : () -> ({mt})',
+                      f'%p{i} = "memref.extract_aligned_pointer_as_index"(%m{i}) : ({mt}) -> index',
+                      f'"test.op"(%p{i}) : (index) -> ()']
+        elif src == "arg":
+            funcs += [f"func.func @f{i}(%a{i} : {mt}) {{",
+                      f'  %p{i} = "memref.extract_aligned_pointer_as_index"(%a{i}) : ({mt}) -> index',
+                      f'  "test.op"(%p{i}) : (index) -> ()', "  func.return", "}"]
+        else:
+            one = ", ".join(["[1] -> (1)"] * rank)
+            rt = f"memref<{'x'.join(['1'] * rank)}x{ELTS[el]}, #tsl.tsl<{one}>>"
+            mname = f"%m{i}" if it.get("reuse") is None else f"%m{it['reuse']}"
+            if it.get("reuse") is None:
+                lines.append(f'%m{i} = "test.op"() : () -> ({mt})')
+            names = []
+            for j in range(len(it["dyn"])):
+                lines.append(f'%d{i}_{j} = "test.op"() : () -> (index)')
+                names.append(f"%d{i}_{j}")
+            itn = iter(names)
+            olist = ", ".join(next(itn) if o is None else str(o) for o in it["offs"])
+            ones = ", ".join(["1"] * rank)
+            lines += [f"%s{i} = memref.subview {mname}[{olist}] [{ones}] [{ones}] : {mt} to {rt}",
+                      f'%p{i} = "memref.extract_aligned_pointer_as_index"(%s{i}) : ({rt}) -> index',
+                      f'"test.op"(%p{i}) : (index) -> ()']
+    module = snaxrun.parse("\n".join(lines + funcs))
+    ConvertMemrefToArithPass().apply(snaxrun.ctx(), module)
+    ops = [op for op in module.walk() if op is not module]
+    # the values that stand for run-time inputs, in program order: memrefs (base pointers) and dynamic offsets
+    top = [op for op in ops if op.name == "test.op" and not op.operands and len(op.results) == 1]
+    env, bases = {}, {}
+    order = [it for it in items if it["src"] != "arg"]
+    k = 0
+    for it in order:
+        if it.get("reuse") is None:
+            bases[top[k].results[0]] = it["base"]
+            k += 1
+        if it["src"] == "tsl":
+            for v in it["dyn"]:
+                env[top[k].results[0]] = v
+                k += 1
+    env = interp([op for op in ops if op.name not in ("func.func", "func.return")], env, ptr_of=lambda v: bases.get(v))
+    users = [op for op in ops if op.name == "test.op" and len(op.operands) == 1]
+    # consumers appear in item order for the top-level items, then the functions
+    seq = [i for i, it in enumerate(items) if it["src"] != "arg"] + [i for i, it in enumerate(items) if it["src"] == "arg"]
+    out = [None] * len(items)
+    for i, u in zip(seq, users):
+        owner = u.operands[0].owner
+        if isinstance(owner, memref.ExtractAlignedPointerAsIndexOp) and (
+                items[i]["src"] != "tsl" or isinstance(owner.source.owner, memref.SubviewOp)):
+            out[i] = {"unchanged": True}
+        else:
+            v = env.get(u.operands[0])
+            out[i] = {"ptr": v} if v is not None else {"unchanged": True}
+    return {"results": out}
+
+
 # ------------------------------------------------------------------------------------------------
 # generators
 def gen_tstride(rng, depth, bounds, mode):
@@ -389,6 +474,67 @@ def gen_layout(rng, max_rank=4, max_depth=3, bounds=(1, 1, 2, 2, 3, 4, 5, 8), ca
         t = rng.choice(L["ts"])
         t[rng.randrange(len(t))][rng.randrange(2)] = 0
     return L
+
+
+def gen_subview(rng, layout=None):
+    if layout is not None:
+        L = layout
+    else:
+        L = gen_layout(rng, max_rank=3, dyn=0.0, cap=10 ** 6)
+        L["offset"] = 0
+        if rng.random() < 0.2:
+            L["ts"][0][0] = [L["ts"][0][0][0], None]          # dynamic outermost bound
+    sh, offs, dyn = [], [], []
+    for t in L["ts"]:
+        inner = 1
+        for _, b in t[1:]:
+            inner *= b
+        outer = t[0][1] or 4
+        sh.append(inner * outer)
+        o = inner * rng.randrange(outer)
+        if rng.random() < 0.12:
+            o += rng.randrange(inner)                       # not tile aligned
+        r = rng.random()
+        if r < 0.4:
+            offs.append(None)
+            dyn.append(o)
+        elif r < 0.6:
+            offs.append(0)
+        else:
+            offs.append(o)
+    return {"kind": "subview", "layout": L, "el": rng.choice([1, 4, 8]), "shape": sh, "offs": offs,
+            "dyn": dyn, "base": rng.choice([0, 4096, 65536])}
+
+
+def module_rt_real(layouts):
+    """Several memref types with tsl layouts in ONE module: parse, print, parse the print, print again."""
+    import snaxrun
+    lines = []
+    for i, L in enumerate(layouts):
+        dims = "x".join(["?"] * len(L["ts"]))
+        lines.append(f'%m{i} = "test.op"() : () -> (memref<{dims + "x" if dims else ""}i8, #tsl.tsl<{to_tsl(L)}>>)')
+    m1 = snaxrun.parse("\n".join(lines))
+    t1 = snaxrun.text(m1)
+    t2 = snaxrun.text(snaxrun.parse(t1))
+    got = [of_tsl(op.results[0].type.layout.data) for op in m1.body.block.ops]
+    return {"layouts": got, "print_fixed_point": t1 == t2}
+
+
+def helpers_real(L, O):
+    from snaxc.dialects.tsl import TiledStridedLayoutAttr
+    tsl, other = to_tsl(L), to_tsl(O)
+    depths = list(range(max((len(t) for t in L["ts"]), default=0) + 2))
+    out = {"ts_dynamic": [t.is_dynamic() for t in tsl.tstrides],
+           "ts_all_values": [exc(lambda t=t: [list(v) for v in t.all_values()]) for t in tsl.tstrides],
+           "get_stride": [[(lambda s_: None if s_ is None else [s_.step, s_.bound])(t.get_stride(d)) for d in depths]
+                          for t in tsl.tstrides],
+           "equal_tb": tsl.equal_tile_bounds(other), "equal_tb_self": tsl.equal_tile_bounds(tsl),
+           "strides_str": [str(s_) for _, _, s_ in tsl]}
+    # not modelled, checked here: equal attributes hash equally; a Stride is not equal to a non-Stride
+    a1, a2 = TiledStridedLayoutAttr(tsl), TiledStridedLayoutAttr(to_tsl(L))
+    out["hash_consistent"] = (a1 == a2) and (hash(a1) == hash(a2))
+    out["eq_foreign"] = all((s_ == (s_.step, s_.bound)) is False for _, _, s_ in tsl)
+    return out, depths
 
 
 def gen_pts(rng, L):
@@ -560,32 +706,38 @@ class C10(Prop):
                 text = mutate_text(rng, text)
             yield {"kind": "parse", "text": text}
         for _ in range(40 if quick else 600):
-            L = gen_layout(rng, max_rank=3, dyn=0.0, cap=10 ** 6)
-            L["offset"] = 0
-            if rng.random() < 0.2:
-                L["ts"][0][0] = [L["ts"][0][0][0], None]          # dynamic outermost bound
-            sh = []
-            offs = []
-            dyn = []
-            for t in L["ts"]:
-                inner = 1
-                for _, b in t[1:]:
-                    inner *= b
-                outer = t[0][1] or 4
-                sh.append(inner * outer)
-                o = inner * rng.randrange(outer)
-                if rng.random() < 0.12:
-                    o += rng.randrange(inner)                       # not tile aligned
-                r = rng.random()
-                if r < 0.4:
-                    offs.append(None)
-                    dyn.append(o)
-                elif r < 0.6:
-                    offs.append(0)
-                else:
-                    offs.append(o)
-            yield {"kind": "subview", "layout": L, "el": rng.choice([1, 4, 8]), "shape": sh, "offs": offs,
-                   "dyn": dyn, "base": rng.choice([0, 4096, 65536])}
+            yield gen_subview(rng)
+        for _ in range(30 if quick else 500):    # several pointer computations in one module, one pass run
+            items = []
+            for _ in range(rng.randint(2, 4)):
+                prev = [j for j, x in enumerate(items) if x["src"] == "tsl" and x.get("reuse") is None]
+                if prev and rng.random() < 0.45:
+                    # another subview of the SAME memref value (same type, other offsets)
+                    j = rng.choice(prev)
+                    it = gen_subview(rng, layout=items[j]["layout"])
+                    it.update(el=items[j]["el"], base=items[j]["base"], src="tsl", reuse=j)
+                    items.append(it)
+                    continue
+                it = gen_subview(rng)
+                it["src"] = rng.choice(["tsl", "tsl", "tsl", "direct", "plain", "arg"])
+                if it["src"] == "arg":
+                    it["layout"]["ts"][0][0] = [it["layout"]["ts"][0][0][0], it["layout"]["ts"][0][0][1] or 4]
+                items.append(it)
+            yield {"kind": "subview_module", "items": items}
+        for _ in range(40 if quick else 600):    # the small helpers of the classes
+            L = gen_layout(rng, max_rank=3, dyn=0.3, zero=0.1, cap=4096)
+            O = rng.choice([L, of_tsl(to_tsl(L).canonicalize()), gen_layout(rng, max_rank=3, dyn=0.3, cap=4096)])
+            yield {"kind": "helpers", "layout": L, "other": O}
+        for _ in range(20 if quick else 300):    # several tsl attributes in one module: parse, print, parse again
+            yield {"kind": "module_rt", "layouts": [gen_layout(rng, max_rank=3, dyn=0.4, cap=10 ** 9, bounds=(1, 2, 3, 4, 8, 16))
+                                                    for _ in range(rng.randint(2, 4))]}
+        for _ in range(15 if quick else 200):    # steps and bounds of different lengths
+            L = gen_layout(rng, max_rank=2, dyn=0.2, cap=10 ** 6)
+            t = rng.choice(L["ts"])
+            bounds = ", ".join("?" if b is None else str(b) for _, b in t)
+            steps = ", ".join("?" if s_ is None else str(s_) for s_, _ in t)
+            extra = rng.choice([steps + ", 1", ", ".join(steps.split(", ")[:-1])])
+            yield {"kind": "parse", "text": f"[{bounds}] -> ({extra})"}
         if not quick:
             yield from self.exhaustive()
 
@@ -635,6 +787,11 @@ class C10(Prop):
             out["tile_bounds"] = tsl.tile_bounds()
             out["print"] = str(tsl)
             out["attr_print"] = str(attr)
+            # (a) nothing above may have changed the object, and asking again gives the same answers
+            out["stable"] = (of_tsl(tsl) == L and of_tsl(tsl.canonicalize()) == out["canon"] and str(tsl) == out["print"]
+                             and tsl.tile_bounds() == out["tile_bounds"] and tsl.is_dynamic() == out["is_dynamic"]
+                             and (not case["enum"] or exc(lambda: [int(x) for x in tsl.all_values()]) == out["all_values"])
+                             and (isinstance(amap, dict) or of_x(attr.get_affine_map().results[0]) == out["affine"]))
             return out
         if k == "from_strides":
             from snaxc.ir.tsl import TiledStridedLayout
@@ -648,6 +805,12 @@ class C10(Prop):
             return out
         if k == "resolve_strided":
             return resolve_strided_real(case)
+        if k == "subview_module":
+            return subview_module_real(case["items"])
+        if k == "helpers":
+            return helpers_real(case["layout"], case["other"])[0]
+        if k == "module_rt":
+            return module_rt_real(case["layouts"])
         if k == "parse":
             return exc(lambda: of_tsl(parse_attr(case["text"])))
         if k == "subview":
@@ -672,6 +835,15 @@ class C10(Prop):
                 # with fix FC10b the metadata strides are scaled by the requested unit, not by the element size
                 "el_size": (case["el_size"] if case["in_bytes"] else 1) if N4 else case["el_size"],
                 "el": case["el_size"] if case["in_bytes"] else 1}}]
+        if k == "subview_module":
+            return [{"fn": "c10.subview", "args": {"layout": it["layout"], "el": it["el"], "offs": it["offs"],
+                                                   "dyn": it["dyn"], "f13": F13, "base": it["base"]}}
+                    for it in case["items"] if it["src"] == "tsl"]
+        if k == "helpers":
+            depths = list(range(max((len(t) for t in case["layout"]["ts"]), default=0) + 2))
+            return [{"fn": "c10.helpers", "args": {"layout": case["layout"], "other": case["other"], "depths": depths}}]
+        if k == "module_rt":
+            return [{"fn": "c10.parse", "args": {"tokens": lex(str(to_tsl(L)) + ">"), "f6": F6}} for L in case["layouts"]]
         if k == "parse":
             return [{"fn": "c10.parse", "args": {"tokens": lex(case["text"] + ">"), "f6": F6}}]
         if k == "subview":
@@ -680,6 +852,22 @@ class C10(Prop):
         return []
 
     def model(self, case, answers):
+        if case["kind"] == "subview_module":
+            it_ans = iter(answers)
+            res = []
+            for it in case["items"]:
+                if it["src"] != "tsl":
+                    res.append({"unchanged": True})
+                    continue
+                a = next(it_ans)
+                if "err" in a:
+                    return {"model_error": a["err"]}
+                res.append(a["ok"] if isinstance(a["ok"], dict) else {"ptr": a["ok"]})
+            return {"results": res}
+        if case["kind"] == "module_rt":
+            if any("err" in a for a in answers):
+                return {"model_error": [a.get("err") for a in answers]}
+            return {"layouts": [a["ok"] for a in answers], "print_fixed_point": True}
         a = answers[0]
         if "err" in a:
             return {"model_error": a["err"]}
@@ -696,7 +884,13 @@ class C10(Prop):
             r["canon_bounds"] = c["ok"]["bounds"]
             r["canon_steps_el"] = c["ok"]["steps"]
             return r
+        if k == "helpers":
+            r["strides_str"] = [render(t) for t in r["strides_str"]]
+            r["hash_consistent"] = True
+            r["eq_foreign"] = True
+            return r
         if k == "views":
+            r["stable"] = True
             L = case["layout"]
             if not (is_static(L) and all(b > 0 for t in L["ts"] for _, b in t)):
                 r["addr"] = None
@@ -733,6 +927,8 @@ class C10(Prop):
                 fail(f"a view raised {impl_out['raised']}: {impl_out.get('msg')}")
                 return bad
             tsl = to_tsl(L)
+            if not impl_out.get("stable", True):
+                fail(f"a view of `{tsl}` changed the layout object or answered differently when asked again")
             # textual form: print -> parse gives an equal layout (dynamic entries and offset included);
             # 0 prints as `?` (outside "positive"), so only layouts without 0 entries are required to round-trip;
             # a rank-0 layout with an offset prints a leading comma and is not a layout of the quantifier
@@ -889,6 +1085,51 @@ class C10(Prop):
                         fail(f"the resolved bounds {bs} and steps {steps} ({unit}) of {txt} map two indices of the "
                              f"runtime box to the same address")
                         break
+        elif k == "subview_module":
+            if "raised" in impl_out:
+                fail(f"convert-memref-to-arith raised {impl_out['raised']} on a module with several pointers: {impl_out.get('msg')}")
+                return bad
+            for i, (it, r) in enumerate(zip(case["items"], impl_out["results"])):
+                if it["src"] != "tsl":
+                    if "ptr" in r:
+                        fail(f"pointer #{i} ({it['src']}: not a subview of a TSL memref) was rewritten by the pass")
+                    continue
+                if "ptr" not in r:
+                    fail(f"pointer #{i} (subview of a TSL memref) was not lowered in a module with {len(case['items'])} pointers")
+                    continue
+                # (a) the k-th pointer of a module is the pointer the pass computes for that subview alone
+                alone = exc(lambda it=it: subview_real(it["layout"], it["el"], it["shape"], it["offs"], it["dyn"], it["base"]))
+                if alone != r["ptr"]:
+                    fail(f"pointer #{i} of the module is {r['ptr']}, the same subview alone lowers to {alone}")
+                bad.extend(self.oracle(dict(it, kind="subview"), {"ptr": r["ptr"]}))
+        elif k == "helpers":
+            if "raised" in impl_out:
+                fail(f"a helper raised {impl_out['raised']}: {impl_out.get('msg')}")
+                return bad
+            L = case["layout"]
+            if not impl_out["hash_consistent"]:
+                fail("two equal TiledStridedLayoutAttr have different hashes (or are unequal)")
+            if not impl_out["eq_foreign"]:
+                fail("a Stride compares equal to a tuple")
+            if not impl_out["equal_tb_self"]:
+                fail("equal_tile_bounds(self) is False")
+            if impl_out["equal_tb"] != ([[b for _, b in t] for t in L["ts"]] == [[b for _, b in t] for t in case["other"]["ts"]]):
+                fail("equal_tile_bounds disagrees with the tile bounds of the two layouts")
+            if impl_out["ts_dynamic"] != [any(s_ is None or b is None for s_, b in t) for t in L["ts"]]:
+                fail("TiledStride.is_dynamic disagrees with the entries")
+            for t, row in zip(L["ts"], impl_out["get_stride"]):
+                if row != [t[d] if d < len(t) else None for d in range(len(row))]:
+                    fail(f"get_stride returns {row} for {t}")
+            if impl_out["strides_str"] != [f"{'?' if b is None else b} -> {'?' if s_ is None else s_}" for t in L["ts"] for s_, b in t]:
+                fail("Stride.__str__ does not print `bound -> step`")
+        elif k == "module_rt":
+            if "raised" in impl_out:
+                fail(f"a module with {len(case['layouts'])} tsl attributes does not parse/print: {impl_out['raised']} {impl_out.get('msg')}")
+                return bad
+            if impl_out["layouts"] != case["layouts"]:
+                fail(f"layouts parsed from one module differ from the layouts printed into it: {impl_out['layouts']} vs {case['layouts']}")
+            if not impl_out["print_fixed_point"]:
+                fail("printing a parsed module, parsing that and printing again gives a different text")
         elif k == "resolve_strided":
             if "raised" in impl_out:
                 fail(f"bound/step ops on a strided memref raised {impl_out['raised']}: {impl_out.get('msg')}")
@@ -963,7 +1204,16 @@ class C10(Prop):
                 what = (f"subview pointer is {impl_out['ptr']} (base={case['base']}), the element at {offs} of `{to_tsl(L)}` "
                         f"is at base+{want - case['base']}")
                 if not aligned:
-                    fail(what + " (offset not a multiple of the inner tile)", "D23b")
+                    # D23b loses exactly the inner digits (theorem subviewPtr_floor): the pointer is the address of
+                    # the offsets rounded down to their tiles; anything else is a new violation
+                    inners = []
+                    for t in L["ts"]:
+                        inner = 1
+                        for _, b in t[1:]:
+                            inner *= b
+                        inners.append(inner)
+                    floor = case["base"] + case["el"] * ref_addr(ts, [o // i * i for o, i in zip(offs, inners)])
+                    fail(what + " (offset not a multiple of the inner tile)", "D23b" if impl_out["ptr"] == floor else None)
                 else:
                     fail(what, "D23" if all(o is not None for o in case["offs"]) or any(
                         o not in (None, 0) for o in case["offs"]) else None)
